@@ -983,6 +983,87 @@ theorem context_const_write_counterexample :
     ¬ ((run St.init constBad).out 1 = (run St.init (constBad.filter (fun op => op.req == 1))).out 1) :=
   ctx_const_write_counterexample
 
+/-! ### Fills with an error branch (`BFill`, `progB`)
+
+`ratelimitmw.newRequestInfo` fills `ri.Messages` on two branches: the constructor of the profile when
+`dnsmsg.NewConstructor` accepts the profile's settings, the constructor of the server when it does not (negative
+TTL, no blocking mode) or when there is no profile.  The discipline asks for the fill on EVERY branch. -/
+
+/-- context_branching_program_ok: a request whose fills have error branches follows the discipline whichever
+branches its own data select, provided every fill that fails has a fallback value on its error branch
+(`ri.Messages = mw.messages` in front of the attempt).  No assumption on the object `Get` returns. -/
+theorem context_branching_program_ok (C : List Nat) (s : St) (r k : Nat) (fill : List BFill) (reads : List Nat)
+    (hh : s.held r = none) (hC : ∀ b ∈ fill, b.f ∉ C) (hfb : ∀ b ∈ fill, b.ok = true ∨ b.dflt.isSome = true)
+    (hreads : ∀ f ∈ reads, f ∈ fill.map (·.f) ∨ f ∈ C) :
+    ReadsOkC C s (progB r k fill reads) := by
+  apply prog_readsOkC C s r k _ _ hh
+  · intro fv hfv
+    obtain ⟨b, hb, he⟩ := List.mem_filterMap.mp hfv
+    have hf : fv.1 = b.f := by
+      unfold BFill.eff at he
+      by_cases hok : b.ok = true
+      · simp [hok] at he; rw [← he]
+      · simp [hok] at he; obtain ⟨d, _, hd⟩ := he; rw [← hd]
+    rw [hf]; exact hC b hb
+  · intro f hf
+    rcases hreads f hf with h | h
+    · left
+      obtain ⟨b, hb, rfl⟩ := List.mem_map.mp h
+      rcases hfb b hb with hok | hd
+      · exact List.mem_map.mpr ⟨(b.f, b.v), List.mem_filterMap.mpr ⟨b, hb, by simp [BFill.eff, hok]⟩, rfl⟩
+      · obtain ⟨d, hd'⟩ := Option.isSome_iff_exists.mp hd
+        by_cases hok : b.ok = true
+        · exact List.mem_map.mpr ⟨(b.f, b.v), List.mem_filterMap.mpr ⟨b, hb, by simp [BFill.eff, hok]⟩, rfl⟩
+        · exact List.mem_map.mpr ⟨(b.f, d), List.mem_filterMap.mpr ⟨b, hb, by simp [BFill.eff, hok, hd']⟩, rfl⟩
+    · exact Or.inr h
+
+/-- context_all_branches_ok: when every fill has a fallback, EVERY assignment of outcomes (`oks`: which
+computations succeed for this request) gives a disciplined program. -/
+theorem context_all_branches_ok (C : List Nat) (s : St) (r k : Nat) (fill : List BFill) (reads : List Nat)
+    (oks : Nat → Bool) (hh : s.held r = none) (hC : ∀ b ∈ fill, b.f ∉ C) (hfb : ∀ b ∈ fill, b.dflt.isSome = true)
+    (hreads : ∀ f ∈ reads, f ∈ fill.map (·.f) ∨ f ∈ C) :
+    ReadsOkC C s (progB r k (fill.map (fun b => { b with ok := oks b.f })) reads) := by
+  apply context_branching_program_ok C s r k _ _ hh
+  · intro b hb
+    obtain ⟨b0, hb0, rfl⟩ := List.mem_map.mp hb
+    exact hC b0 hb0
+  · intro b hb
+    obtain ⟨b0, hb0, rfl⟩ := List.mem_map.mp hb
+    exact Or.inr (hfb b0 hb0)
+  · intro f hf
+    rcases hreads f hf with h | h
+    · left
+      obtain ⟨b0, hb0, rfl⟩ := List.mem_map.mp h
+      exact List.mem_map.mpr ⟨_, List.mem_map.mpr ⟨b0, hb0, rfl⟩, rfl⟩
+    · exact Or.inr h
+
+/-- Two requests with a fill of field 4 (`ri.Messages`) that has an error branch: request 0 belongs to a
+profile with a constructor of its own (value 41), for request 1 the construction fails.  `d` is what the error
+branch writes. -/
+def branchMix (d : Option Nat) : List Op :=
+  progB 0 0 [.plain 0 10, { f := 4, ok := true, v := 41, dflt := d }] [0, 4] ++
+  progB 1 0 [.plain 0 20, { f := 4, ok := false, v := 0, dflt := d }] [0, 4]
+
+/-- Non-vacuity of `context_branching_program_ok` / `context_all_branches_ok`: with the fallback 8 (the
+server's constructor) both programs are disciplined, request 1 recycles the object of request 0 and reads its
+own 20 and the fallback 8 — what it reads alone. -/
+example : ReadsOkC [3] St.init (branchMix (some 8)) ∧ (run St.init ((branchMix (some 8)).take 5)).held 1 = none ∧
+    (run St.init ((branchMix (some 8)).take 6)).held 1 = some 0 ∧
+    (run St.init (branchMix (some 8))).out 1 = [[20, 8]] ∧
+    (run St.init ((branchMix (some 8)).filter (fun op => op.req == 1))).out 1 = [[20, 8]] := by decide
+def twoFills : List BFill := [{ f := 0, ok := true, v := 20, dflt := some 0 }, { f := 4, ok := true, v := 0, dflt := some 8 }]
+example : ReadsOkC [3] St.init (progB 1 0 (twoFills.map (fun b => { b with ok := (fun f => f != 4) b.f })) [0, 3, 4]) :=
+  context_all_branches_ok [3] St.init 1 0 twoFills [0, 3, 4] (fun f => f != 4) rfl (by decide) (by decide) (by decide)
+
+/-- context_error_branch_counterexample: an error branch that leaves the field alone (the seeded change
+`messages-constructor-kept-on-ctor-error`: the reset of `ri.Messages` moved into the no-profile branch) —
+request 1, whose profile's constructor cannot be built, reads 41: the constructor (blocking mode, TTL) of the
+profile of request 0.  Alone it reads what `New` has put into the object. -/
+theorem context_error_branch_counterexample :
+    (run St.init (branchMix none)).out 1 = [[20, 41]] ∧
+    ¬ ((run St.init (branchMix none)).out 1 = (run St.init ((branchMix none).filter (fun op => op.req == 1))).out 1) := by
+  decide
+
 /-- What the model's `put` excludes and the code must not do (Tie facts `*_put_count_src`): an object that is
 put back twice (a second `Put` on an early-return path in front of the deferred one) is handed to two requests
 at once. -/
@@ -1017,6 +1098,9 @@ example :
 #print axioms context_missing_fill_counterexample
 #print axioms context_const_write_counterexample
 #print axioms context_double_put_counterexample
+#print axioms context_branching_program_ok
+#print axioms context_all_branches_ok
+#print axioms context_error_branch_counterexample
 
 end Agd.PoolCtx
 
@@ -1077,6 +1161,7 @@ end Agd.Release
 #print axioms Agd.Tie.TrC07.filtering_context_reset
 #print axioms Agd.Tie.TrC07.request_info_reset
 #print axioms Agd.Tie.TrC07.request_info_messages
+#print axioms Agd.Tie.TrC07.request_info_pool_independent
 #print axioms Agd.Tie.TrC07.flt_request_filled
 #print axioms Agd.Tie.TrC07.flt_response_filled
 #print axioms Agd.Tie.TrC07.flt_put_drops_message
